@@ -115,10 +115,24 @@ def coverage():
     return "\n".join(out)
 
 
+def waves():
+    out = []
+    for f in sorted(glob.glob(os.path.join(V, "notes", "agents", "*-w[0-9].md"))):
+        txt = open(f).read().strip().split("\n")
+        body = []
+        for l in txt:
+            if l.startswith("#"):
+                l = "#### " + l.lstrip("#").strip()
+            body.append(l)
+        out.append("\n".join(body))
+        out.append("")
+    return "\n".join(out)
+
+
 def main():
     p = os.path.join(V, "DESIGN.md")
     s = open(p).read()
-    for name, fn in (("findings", findings), ("seeded", seeded), ("engines", engines), ("theorems", theorems), ("coverage", coverage)):
+    for name, fn in (("findings", findings), ("seeded", seeded), ("engines", engines), ("theorems", theorems), ("coverage", coverage), ("waves", waves)):
         b, e = "<!-- BEGIN:%s -->" % name, "<!-- END:%s -->" % name
         if b in s and e in s:
             i, j = s.index(b) + len(b), s.index(e)
